@@ -1,5 +1,7 @@
+mod c01;
 mod c14;
 mod c17;
+mod c19;
 
 use vf_common::Ctx;
 
@@ -7,8 +9,10 @@ fn main() {
     let ctx = Ctx::from_args(|_| "exploration");
     let mut rep = ctx.report();
     match ctx.property.as_str() {
+        "C01" => c01::run(&ctx, &mut rep),
         "C14" => c14::run(&ctx, &mut rep),
         "C17" => c17::run(&ctx, &mut rep),
+        "C19" => c19::run(&ctx, &mut rep),
         p => {
             eprintln!("vf-app does not serve property {p}");
             std::process::exit(3);
